@@ -305,6 +305,12 @@ func (kde *KDE) Bounds() (low float64, high float64) {
 	// discontiguous kernel.
 	low, _ = bisect(func(x float64) float64 { return kde.CDF(x) - lowY }, lowX, highX, tolerance)
 	high, _ = bisect(func(x float64) float64 { return kde.CDF(x) - highY }, lowX, highX, tolerance)
+	if kde.CDF(high) < highY-tolerance {
+		// bisect stopped just below a discontinuity (e.g., a
+		// delta kernel). Step over it so the bounds include
+		// its mass.
+		high = math.Nextafter(high, math.Inf(1))
+	}
 
 	// Expand width by 20% to give some margins
 	width := high - low
